@@ -221,6 +221,16 @@ def prove(prop, extra_modules=()):
                 failed=failed, log=log, driver_ok=True, theorems=thms, axioms=axioms, build_ok=True)
 
 
+_STR_FIELD = re.compile(r"=S([0-9a-f]*)")
+
+
+def lossy_strings(line):
+    """String values are reported by the implementation after String::from_utf8_lossy; the Lean model and the specification
+    carry the raw bytes (the model of load_signal_strings assumes valid UTF-8). Before comparing, every `=S<hex>` field of a
+    model / specification reply is put through the same replacement (each maximal invalid subsequence -> U+FFFD)."""
+    return _STR_FIELD.sub(lambda m: "=S" + bytes.fromhex(m.group(1)).decode("utf-8", "replace").encode().hex(), line)
+
+
 # ---------------------------------------------------------------------------------------------
 # correspondence
 
